@@ -115,8 +115,8 @@ def units_for(tier: str) -> List[Any]:
     item_kinds = [('gate', 'ok'), ('gate', 'exc'), ('child', 'ok'), ('child', 'exc'), ('child', 'kill'), ('child', 'cancel')]
     for n in range(1, n_max + 1):
         for items in itertools.product(item_kinds, repeat=n):
-            if n == 3 and sum(1 for k, _ in items if k == 'child') > 2:
-                continue
+            if n == 3 and (sum(1 for k, _ in items if k == 'child') > 2 or ('child', 'cancel') in items):
+                continue  # (three items: at most two children, and a child killed through its future only up to pairs)
             for how in ('return', 'call', 'both'):
                 if how == 'both' and n == 1:
                     continue
